@@ -93,13 +93,20 @@ Step ==
               /\ Check("Mech_WalDeleteBelowLogNumber", e.seg < man.log, e)
               /\ wal' = SetSeg(e.seg, [Seg(e.seg) EXCEPT !.exists = FALSE])
               /\ UNCHANGED <<active, man, tabs, acked, synced, started, run>>
+         [] e.ev = "Begin" ->
+              /\ started' = IF e.t > started THEN e.t ELSE started
+              /\ UNCHANGED <<wal, active, man, tabs, acked, synced, run>>
          [] e.ev = "Crash" ->
-              \* observation: the real recovery code, run on the image rebuilt here, returned the content of
-              \* prefix e.n of the commit order (-1: not a prefix; -2: refused / hung / crashed)
-              /\ Check("Obs_Reopenable", e.n # -2, e)
-              /\ Check("Obs_PrefixConsistent", e.n # -1, e)
-              /\ Check("Obs_Durable", e.n < 0 \/ e.n >= (IF e.model = "process" THEN acked ELSE synced), e)
-              /\ Check("Obs_NotFromTheFuture", e.n < 0 \/ e.n <= started, e)
+              \* observation: the real recovery code, run on the image rebuilt here, returned a content equal to the
+              \* result of the prefixes e.ms of the commit order (several when later transactions change nothing);
+              \* e.ok = FALSE: it refused to open, crashed or hung
+              /\ Check("Obs_Reopenable", e.ok, e)
+              /\ Check("Obs_PrefixConsistent", (~e.ok) \/ Len(e.ms) > 0, e)
+              /\ Check("Obs_NotFromTheFuture", (~e.ok) \/ Len(e.ms) = 0 \/ \E i \in 1..Len(e.ms) : e.ms[i] <= started, e)
+              /\ Check("Obs_Durable",
+                       (~e.ok) \/ Len(e.ms) = 0
+                       \/ \E i \in 1..Len(e.ms) :
+                             e.ms[i] <= started /\ e.ms[i] >= (IF e.model = "process" THEN acked ELSE synced), e)
               /\ UNCHANGED <<wal, active, man, tabs, acked, synced, started, run>>
          [] OTHER -> UNCHANGED <<wal, active, man, tabs, acked, synced, started, run>>
 
